@@ -133,7 +133,7 @@ def kani_harnesses(root):
             mod = "verif_kani" if f.endswith("verif_kani.rs") else "verif_kani::" + os.path.basename(f)[:-3]
             hs.append(dict(id=kv["id"], props=kv["props"].split(","), kind=kv.get("kind", "complete"),
                            tier=kv.get("tier", "quick"), fn=m.group(3), full=mod + "::" + m.group(3),
-                           contract=kv.get("contract") == "1", file=os.path.relpath(f, root)))
+                           contract=kv.get("contract") == "1", xcheck=kv.get("xcheck") == "1", file=os.path.relpath(f, root)))
     return hs
 
 
@@ -446,7 +446,7 @@ def run_kani(root, scratch, harnesses, tier):
         out["undecided"].append(str(e))
         return out
     out["overlay"] = ["%s: %s::%s += %s" % (f, i, fn, "; ".join(a)) for f, i, fn, a in inserted]
-    hto = int(os.environ.get("VERIF_HARNESS_TIMEOUT", "150" if tier == "quick" else "600"))
+    hto = int(os.environ.get("VERIF_HARNESS_TIMEOUT", "300" if tier == "quick" else "900"))
     cmd = ["cargo", "kani", "-Z", "function-contracts", "-Z", "stubbing", "-Z", "unstable-options", "--harness-timeout", "%ds" % hto,
            "-j", str(min(NCPU, 12)), "--output-format=terse"]
     for h in harnesses:
@@ -454,7 +454,7 @@ def run_kani(root, scratch, harnesses, tier):
     cmd += ["--exact"]
     out["cmd"] = "CARGO_NET_OFFLINE=true cargo kani -Z function-contracts -Z stubbing -Z unstable-options --harness-timeout %ds -j %d --output-format=terse %s" % (
         hto, min(NCPU, 12), " ".join("--harness " + h["full"] for h in harnesses) + " --exact")
-    to = 900 if tier == "quick" else 3000
+    to = 1500 if tier == "quick" else 3600
     rc, so, se, dt = run(cmd, cwd=repo, env={"CARGO_TARGET_DIR": os.path.join(scratch.dir, "target-kani")}, timeout=to)
     out["time_s"] = round(dt, 2)
     allout = so + "\n" + se
@@ -469,7 +469,7 @@ def run_kani(root, scratch, harnesses, tier):
         if r is None:
             out["undecided"].append("no Kani result for harness %s%s" % (h["full"], " (timeout)" if rc == 124 else ""))
             continue
-        if r["status"] == "UNKNOWN":
+        if r["status"] == "UNKNOWN" and not h.get("xcheck"):
             out["undecided"].append("Kani did not finish harness %s%s" % (h["full"], " (timeout)" if rc == 124 else ""))
         r["meta"] = h
         out["harnesses"][h["full"]] = r
@@ -573,6 +573,13 @@ def decide(root, prop, tier, seed, scratch, t0, ev_path):
         dev = prop
         units = [prop[5:]]
         hs = []
+    elif prop.startswith("MUT:"):
+        # MUT:<unit,unit,..>|<kani fn regex>   (tools/mutate.py: every failure in the listed units / harnesses counts)
+        dev = prop
+        us, _, rx = prop[4:].partition("|")
+        units = [u for u in us.split(",") if u]
+        hs = [dict(h, props=h["props"] + [prop]) for h in kani_harnesses(root)
+              if rx and re.search(rx, h["fn"]) and h["tier"] == "quick"]
     else:
         units = units_for(root, prop)
         hs = [h for h in kani_harnesses(root) if prop in h["props"] and h["tier"] != "manual" and (tier == "thorough" or h["tier"] == "quick")]
@@ -673,6 +680,10 @@ def decide(root, prop, tier, seed, scratch, t0, ev_path):
         trusted.update(["kani: CBMC bit-precise model of rustc MIR; stubs listed per harness"])
         kani_time += r["time_s"]
         if r["status"] == "UNKNOWN":
+            if h.get("xcheck"):
+                # a bounded cross-check of a function that is proved by Verus: not finishing in time decides nothing either way
+                bounded.append(dict(harness=h["id"], bound=h["kind"], checks=0, failed=0,
+                                    status="NOT FINISHED within the harness timeout (cross-check only; the property is decided by the Verus proof)"))
             continue
         is_bounded = h["kind"].startswith("bounded")
         if is_bounded:
@@ -722,7 +733,7 @@ def decide(root, prop, tier, seed, scratch, t0, ev_path):
             printed.append("KNOWN-FINDING: property=%s %s [%s]" % (prop, k["what"], v["oid"]))
             continue
         nviol += 1
-        rp = os.path.join(root, "replay", "%s-%s.json" % (prop, re.sub(r"[^A-Za-z0-9_.-]+", "_", v["oid"])[:100]))
+        rp = os.path.join(root, "replay", "%s-%s.json" % (re.sub(r"[^A-Za-z0-9_.-]+", "_", prop)[:40], re.sub(r"[^A-Za-z0-9_.-]+", "_", v["oid"])[:100]))
         replay = dict(property=prop, obligation=v["oid"], backend=v["backend"], tier=tier)
         suffix = ""
         if v["backend"] == "verus":
